@@ -372,8 +372,18 @@ def run(ctx):
     b64 = set(string.ascii_letters + string.digits + '+/=\n')
     distinct = text is not None and any(ch not in b64 for ch in text)
     # decode only when the content is not the placeholder
-    guard = any(isinstance(n, ast.If) and isinstance(n.test, ast.Compare) and isinstance(n.test.ops[0], ast.NotEq) and
-                any(isinstance(x, ast.Call) and ((isinstance(x.func, ast.Attribute) and x.func.attr == 'b64decode')) for x in ast.walk(n)) for n in ast.walk(des.node))
+    from . import common as _cmg
+    from ..loader import expand_locals as _xlg
+    dec_sites = _cmg.guards_of(des.node, lambda x: isinstance(x, ast.Call) and isinstance(x.func, ast.Attribute) and x.func.attr == 'b64decode')
+
+    def excludes_placeholder(t, pol):
+        t = _xlg(des.node, t)
+        for lit, lp in _cmg.split_literals(t, pol):
+            if isinstance(lit, ast.Compare) and len(lit.ops) == 1 and any(isinstance(x, ast.Attribute) and x.attr == 'ABOVE_LIMIT_CONTENT' for x in ast.walk(lit)):
+                if (isinstance(lit.ops[0], ast.NotEq) and lp) or (isinstance(lit.ops[0], ast.Eq) and not lp):
+                    return True
+        return False
+    guard = bool(dec_sites) and all(any(excludes_placeholder(t, pol) for t, pol in conds) for st_, conds in dec_sites)
     cc.instance('placeholder written and compared through the same constant; %r is outside the base64 alphabet; decode skipped for it' % text, fi.name,
                 wr and rdc and distinct and guard)
     cc.evaluations += 4
